@@ -93,6 +93,28 @@ func loadProg(dir, cfg string) (*Prog, error) {
 			p.Decls[name] = fd
 		}
 	}
+	// lengths of package-level []byte("literal") variables (read-only after init by C04-I1)
+	globalConstLen = map[string]int64{}
+	for _, f := range root.Syntax {
+		for _, d := range f.Decls {
+			gd, ok := d.(*ast.GenDecl)
+			if !ok || gd.Tok != token.VAR {
+				continue
+			}
+			for _, sp := range gd.Specs {
+				vs := sp.(*ast.ValueSpec)
+				for i, n := range vs.Names {
+					if i < len(vs.Values) {
+						if str, ok := p.byteSliceLit(vs.Values[i]); ok {
+							if _, isSlice := root.TypesInfo.TypeOf(vs.Values[i]).Underlying().(*types.Slice); isSlice {
+								globalConstLen[n.Name] = int64(len(str))
+							}
+						}
+					}
+				}
+			}
+		}
+	}
 	for fn := range ssautil.AllFunctions(sprog) {
 		if fn.Pkg != p.SSA {
 			continue
